@@ -72,6 +72,39 @@ def _failing(after, impl):
     return fn
 
 
+async def _gb_stale_async(h):
+    gb = A.groupby(h, key=lambda x: x.key % 2)
+    out = []
+    try:
+        k1, g1 = await gb.__anext__()
+        out.append(k1)
+        k2, g2 = await gb.__anext__()
+        out.append(k2)
+        out.append(await A.anext(g2, "END"))
+        out.append(await A.anext(g1, "END"))
+        out.append(await A.anext(g1, "END"))
+    except StopAsyncIteration:
+        out.append("STOP")
+    await gb.aclose()
+    return tuple(out)
+
+
+def _gb_stale_sync(it):
+    gb = itertools.groupby(it, key=lambda x: x.key % 2)
+    out = []
+    try:
+        k1, g1 = next(gb)
+        out.append(k1)
+        k2, g2 = next(gb)
+        out.append(k2)
+        out.append(next(g2, "END"))
+        out.append(next(g1, "END"))
+        out.append(next(g1, "END"))
+    except StopIteration:
+        out.append("STOP")
+    return tuple(out)
+
+
 # name -> (kind, async factory(handle), sync factory(iterator))
 TOOLS = {
     # tools whose own callable fails while they hold the handle: whatever they do about it, the underlying stays open
@@ -126,6 +159,9 @@ TOOLS = {
     "cycle": ("iter", lambda h: A.cycle(h), lambda it: itertools.cycle(it)),
     "tee0": ("iter", lambda h: A.tee(h, 2)[0], lambda it: itertools.tee(it, 2)[0]),
     "groupby_keys": ("iter", lambda h: A.map(lambda kg: kg[0], A.groupby(h)), lambda it: map(lambda kg: kg[0], itertools.groupby(it))),
+    # groupby used the awkward way: a second group is started and read, then the FIRST (now stale) group is polled -
+    # it must find out that it is stale without taking anything from the shared iterator
+    "groupby_stale_poll": ("agg", lambda h: _gb_stale_async(h), lambda it: _gb_stale_sync(it)),
     "list": ("agg", lambda h: A.list(h), lambda it: list(it)),
     "any": ("agg", lambda h: A.any(h), lambda it: any(it)),
     "all": ("agg", lambda h: A.all(h), lambda it: all(it)),
@@ -160,7 +196,9 @@ def gen_history(rng, maxops=12):
             nh += 1
         elif r < 0.70:
             # (how the block is left: falling through, or by an exception / a BaseException raised in it)
-            ops.append(["scope", h, rng.randint(0, 2), rng.choice(["fall", "fall", "raise", "raise_base"])])
+            # (... and whether a re-entry of the very same context object is attempted - and refused - in the block)
+            ops.append(["scope", h, rng.randint(0, 2), rng.choice(["fall", "fall", "raise", "raise_base"]),
+                        rng.random() < 0.3])
             nh += 1
         else:
             ops.append(["tool", rng.choice(TOOL_NAMES), h, rng.randint(0, 4), rng.choice(["close", "close", "exhaust", "abandon"])])
@@ -364,8 +402,18 @@ def run_history(case, stats, scoped=None):
                     continue
                 how = op[3] if len(op) > 3 else "fall"
                 left_by = (Exception if how == "raise" else BaseException)("the block fails") if how != "fall" else None
+                ctx = A.scoped_iter(handles[h])
                 try:
-                    async with A.scoped_iter(handles[h]) as sh:
+                    async with ctx as sh:
+                        if len(op) > 4 and op[4]:
+                            # entering the active context a second time is refused - and leaves the first entry as it is
+                            try:
+                                await ctx.__aenter__()
+                            except RuntimeError:
+                                counters["scope_reentries_refused"] += 1
+                            else:
+                                fail("borrow/scope-re-entered", f"op {n} {op}: the active scope context was entered a second time")
+                                return
                         for _ in range(op[2]):
                             got = await anext_of(sh)
                             want = _uid(next(model, STOP))
